@@ -39,7 +39,7 @@ RULE = ("case = random connected monoidal diagram (2-8 boxes, width <= 5, each "
         "enumerated by BFS (cap 300 quick / 4000 thorough members) and EVERY "
         "member is normalised (both orientations).  Non-trivial = connected "
         "with a class of >= 4 members; distinct by the class's sorted keys.")
-SIZES = {"quick": (16, 100), "thorough": (16, 2500)}
+SIZES = {"quick": (16, 100), "thorough": (16, 1200)}
 TIMEOUT = {"quick": 900, "thorough": 7200}
 CLASS_CAP = {"quick": 300, "thorough": 4000}
 COVER = {"discopy.rewriting:normalize": 0.95,
